@@ -4,12 +4,16 @@ package webrtc
 //
 // Oracle, evaluated after every successful CreateOffer (Unified Plan) against the API-visible state read right after the call:
 //   * every transceiver of GetTransceivers() has a mid and exactly one non-application m-section carries that mid; no other
-//     non-application section exists; the section's media kind and its single direction attribute equal Kind() / Direction();
+//     non-application section exists; the section's media kind and its single direction attribute equal Kind() / Direction(),
+//     translated to the SDP literals by the monitor's OWN tables (c12KindLiteral / c12DirLiteral), not by the String() methods
+//     the SDP writer prints;
 //   * a sending track (Sender().Track() != nil and direction sendrecv/sendonly) is announced with `a=msid:<streamID> <trackID>`;
-//     the set of a=ssrc ids, the a=ssrc-group:FID pairs and the a=ssrc-group:FEC-FR pairs equal what
-//     Sender().GetParameters().Encodings holds (SSRC, RTX.SSRC, FEC.SSRC); before any remote description was applied, a video
+//     the set of a=ssrc ids, the a=ssrc-group:FID pairs and the a=ssrc-group:FEC-FR pairs equal what the sender itself holds
+//     (RTPSender.trackEncodings[i].ssrc / .ssrcRTX / .ssrcFEC read white-box under RTPSender.mu = "the SSRCs its sender will
+//     use"; NOT RTPSender.GetParameters(), from which sdp.go:addSenderSDP writes those very lines — GetParameters() is only
+//     compared for evidence, counter model_divergence_getparameters); before any remote description was applied, a video
 //     sender of an engine with an attached rtx / a flexfec codec must carry an RTX / FEC ssrc (that is "when those are enabled");
-//     with more than one encoding every RID has an `a=rid:<rid> send` line;
+//     with more than one encoding every RID (RID() of the encoding's track object) has an `a=rid:<rid> send` line;
 //   * an application section is present exactly when this side created a data channel or AlwaysNegotiateDataChannels is set
 //     (given to NewPeerConnection or switched on later by a successful SetConfiguration); never more than one. When only the
 //     REMOTE side created a data channel and negotiated it, the statement is silent (the section then exists because an
@@ -143,8 +147,11 @@ func (c *c12Case) stateDump() []string {
 			} else {
 				s += " track=nil"
 			}
+			for _, e := range c12SenderEncodings(snd) {
+				s += fmt.Sprintf(" enc{rid=%q ssrc=%d rtx=%d fec=%d}", e.RID, e.SSRC, e.RTX, e.FEC)
+			}
 			for _, e := range snd.GetParameters().Encodings {
-				s += fmt.Sprintf(" enc{rid=%q ssrc=%d rtx=%d fec=%d}", e.RID, e.SSRC, e.RTX.SSRC, e.FEC.SSRC)
+				s += fmt.Sprintf(" GetParameters{rid=%q ssrc=%d rtx=%d fec=%d}", e.RID, e.SSRC, e.RTX.SSRC, e.FEC.SSRC)
 			}
 		} else {
 			s += " sender=nil"
@@ -210,6 +217,65 @@ func c12Uniq(xs []string) []string {
 	return out
 }
 
+// c12KindLiteral / c12DirLiteral: the monitor's own tables from the API constants to the SDP literals (RFC 8866 media names,
+// RFC 4566 direction attributes). RTPCodecType.String() / RTPTransceiverDirection.String() are NOT used in a deciding
+// comparison: the SDP writer (sdp.go) prints exactly those, so a swapped or misspelled entry there would be invisible.
+func c12KindLiteral(k RTPCodecType) string {
+	switch k { //nolint:exhaustive
+	case RTPCodecTypeAudio:
+		return "audio"
+	case RTPCodecTypeVideo:
+		return "video"
+	default:
+		return fmt.Sprintf("unknown-kind(%d)", int(k))
+	}
+}
+
+func c12DirLiteral(d RTPTransceiverDirection) string {
+	switch d { //nolint:exhaustive
+	case RTPTransceiverDirectionSendrecv:
+		return "sendrecv"
+	case RTPTransceiverDirectionSendonly:
+		return "sendonly"
+	case RTPTransceiverDirectionRecvonly:
+		return "recvonly"
+	case RTPTransceiverDirectionInactive:
+		return "inactive"
+	default:
+		return fmt.Sprintf("unknown-direction(%d)", int(d))
+	}
+}
+
+// c12Enc is one encoding of a sender as the sender itself holds it: "the SSRCs its sender will use".
+type c12Enc struct {
+	RID            string
+	SSRC, RTX, FEC uint64
+}
+
+// c12SenderEncodings reads the sender's own encoding state white-box (RTPSender.trackEncodings under RTPSender.mu), in the
+// sender's order. It deliberately does not go through RTPSender.GetParameters(): sdp.go:addSenderSDP writes the a=ssrc /
+// a=ssrc-group / a=rid lines from GetParameters(), so an oracle built on it could never disagree with the text. These fields are
+// what RTPSender.Send binds the SRTP streams / interceptors to and what the packets of the track are stamped with.
+func c12SenderEncodings(s *RTPSender) []c12Enc {
+	s.mu.RLock()
+	tracks := make([]TrackLocal, 0, len(s.trackEncodings))
+	out := make([]c12Enc, 0, len(s.trackEncodings))
+	for _, te := range s.trackEncodings {
+		out = append(out, c12Enc{SSRC: uint64(te.ssrc), RTX: uint64(te.ssrcRTX), FEC: uint64(te.ssrcFEC)})
+		tracks = append(tracks, te.track)
+	}
+	s.mu.RUnlock()
+	for i, tr := range tracks {
+		if tr != nil {
+			out[i].RID = tr.RID() // the track object the harness itself built (WithRTPStreamID)
+		}
+	}
+
+	return out
+}
+
+func c12U(v uint64) string { return strconv.FormatUint(v, 10) }
+
 func (c *c12Case) checkOffer(offer SessionDescription) { //nolint:cyclop,gocognit
 	d, err := kit.ParseSDP(offer.SDP)
 	if err != nil {
@@ -266,14 +332,19 @@ func (c *c12Case) checkOffer(offer SessionDescription) { //nolint:cyclop,gocogni
 			continue
 		}
 		owned[m] = true
-		if m.Kind != t.Kind().String() {
-			c.violation("kind-mismatch", fmt.Sprintf("mid %q: section is m=%s, transceiver kind is %s", mid, m.Kind, t.Kind()), offer.SDP)
+		wantKind := c12KindLiteral(t.Kind())
+		if m.Kind != wantKind {
+			c.violation("kind-mismatch", fmt.Sprintf("mid %q: section is m=%s, transceiver kind is %s", mid, m.Kind, wantKind), offer.SDP)
 		}
 		dirs := m.Directions()
 		dir := t.Direction()
-		c.run.Seen("directions_checked", dir.String())
-		if len(dirs) != 1 || dirs[0] != dir.String() {
-			c.violation("direction-mismatch:"+dir.String(), fmt.Sprintf("mid %q: section direction attributes %v, transceiver Direction() is %s", mid, dirs, dir), offer.SDP)
+		wantDir := c12DirLiteral(dir)
+		c.run.Seen("directions_checked", wantDir)
+		if len(dirs) != 1 || dirs[0] != wantDir {
+			c.violation("direction-mismatch:"+wantDir, fmt.Sprintf("mid %q: section direction attributes %v, transceiver Direction() is %s", mid, dirs, wantDir), offer.SDP)
+		}
+		if wantKind != t.Kind().String() || wantDir != dir.String() {
+			c.run.Count("model_divergence_string_tables", 1) // String() disagrees with the monitor's literals: evidence only
 		}
 		snd := t.Sender()
 		if snd == nil || (dir != RTPTransceiverDirectionSendrecv && dir != RTPTransceiverDirectionSendonly) {
@@ -297,17 +368,30 @@ func (c *c12Case) checkOffer(offer SessionDescription) { //nolint:cyclop,gocogni
 		if !found {
 			c.violation("msid-missing", fmt.Sprintf("mid %q: sending track not announced: want a=msid:%s, section has %v", mid, wantMsid, m.AttrAll("msid")), offer.SDP)
 		}
-		encs := snd.GetParameters().Encodings
+		encs := c12SenderEncodings(snd) // the sender's own state, not GetParameters() (which the SDP writer itself prints)
 		var wantSSRC, wantFID, wantFEC []string
 		for _, e := range encs {
-			wantSSRC = append(wantSSRC, strconv.FormatUint(uint64(e.SSRC), 10))
-			if e.RTX.SSRC != 0 {
-				wantSSRC = append(wantSSRC, strconv.FormatUint(uint64(e.RTX.SSRC), 10))
-				wantFID = append(wantFID, fmt.Sprintf("%d %d", e.SSRC, e.RTX.SSRC))
+			wantSSRC = append(wantSSRC, c12U(e.SSRC))
+			if e.RTX != 0 {
+				wantSSRC = append(wantSSRC, c12U(e.RTX))
+				wantFID = append(wantFID, c12U(e.SSRC)+" "+c12U(e.RTX))
 			}
-			if e.FEC.SSRC != 0 {
-				wantSSRC = append(wantSSRC, strconv.FormatUint(uint64(e.FEC.SSRC), 10))
-				wantFEC = append(wantFEC, fmt.Sprintf("%d %d", e.SSRC, e.FEC.SSRC))
+			if e.FEC != 0 {
+				wantSSRC = append(wantSSRC, c12U(e.FEC))
+				wantFEC = append(wantFEC, c12U(e.SSRC)+" "+c12U(e.FEC))
+			}
+		}
+		// evidence only: does the public view agree with the sender's state? (a disagreement surfaces as a verdict only through
+		// the SDP comparison below, because the statement speaks about the offer, not about GetParameters)
+		if pub := snd.GetParameters().Encodings; len(pub) != len(encs) {
+			c.run.Count("model_divergence_getparameters", 1)
+		} else {
+			for k, p := range pub {
+				if uint64(p.SSRC) != encs[k].SSRC || uint64(p.RTX.SSRC) != encs[k].RTX || uint64(p.FEC.SSRC) != encs[k].FEC || p.RID != encs[k].RID {
+					c.run.Count("model_divergence_getparameters", 1)
+
+					break
+				}
 			}
 		}
 		var gotSSRC []string
@@ -682,7 +766,7 @@ func TestVerifC12(t *testing.T) {
 		"direct or after pc's own offer), CreateOffer checked after every operation; non-trivial when some checked offer had "+
 		">= 2 m-sections and >= 1 sending track; distinct by the operation history")
 	defer run.Finish()
-	run.Assume("kit.ParseSDP line splitter is the trusted base; API state (GetTransceivers, Direction, Sender, GetParameters) is read right after CreateOffer returns, no concurrent mutators")
+	run.Assume("kit.ParseSDP line splitter is the trusted base; state (GetTransceivers, Mid, Kind, Direction, Sender, Track; sender encodings white-box from RTPSender.trackEncodings) is read right after CreateOffer returns, no concurrent mutators")
 	run.Assume("the remote side of exchanges is a pion PeerConnection with an identically configured MediaEngine")
 
 	n := kit.N(2000, 30000)
